@@ -27,7 +27,7 @@ LEVEL = "exploration"
 RULE = ("cases = random class hierarchies (2-7 classes, depth <= 4, multiple bases, plain mixin classes, "
         "OvldBase or metaclass=OvldMC roots, create_subclass) x per class 0-3 same-named definitions for each of two "
         "method names, extend_super on the first definition with p=0.7 (on a later one with p=0.04); every class is "
-        "probed with 10 values (instances, classes, lists of both) after every class statement; distinct_nontrivial = distinct hierarchies (shape + "
+        "probed with 12 values (instances, classes, lists of both) after every class statement; distinct_nontrivial = distinct hierarchies (shape + "
         "definition placement) having multiple inheritance and an extend_super over >= 2 bases that define the name")
 ASSUMPTIONS = [
     "parameter types are builtin classes in single-inheritance chains (bool < int < object), so the model's resolution is unambiguous",
@@ -38,12 +38,16 @@ REPORT_COUNTERS = ["hierarchies", "class_statements", "probes", "extend_super_2b
                    "create_subclass", "self_identity_checked", "call_next_sites", "recurse_sites", "mc_roots", "f21_region_probes",
                    "marked_mixins_merged_by_empty_class"]
 
-TYPES = ["int", "str", "float", "bytes", "list", "bool", "object", "type[int]", "type[object]"]
+TYPES = ["int", "str", "float", "bytes", "list", "bool", "object", "type[int]", "type[object]", "EVEN", "GE3"]
+DEP = {"EVEN": lambda v: v % 2 == 0, "GE3": lambda v: v >= 3}      # value conditions over int (names bound in the case's globals)
 PY = {"int": int, "str": str, "float": float, "bytes": bytes, "list": list, "bool": bool, "object": object}
-CORPUS = [1, "s", 2.5, b"b", [1, "s"], True, None, int, bool, [bool, "s", str]]     # classes are passed as arguments too
+# classes are passed as arguments too; 2 and 3 satisfy exactly one of the two value conditions, 1 and True neither
+CORPUS = [1, "s", 2.5, b"b", [1, "s"], True, None, int, bool, [bool, "s", str], 2, 3]
 
 
 def _app(t, v):
+    if t in DEP:
+        return isinstance(v, int) and bool(DEP[t](v))
     if t.startswith("type["):
         return isinstance(v, type) and issubclass(v, PY[t[5:-1]])
     return isinstance(v, PY[t])
@@ -52,6 +56,8 @@ def _app(t, v):
 def _rank(t, v):
     """specificity of an applicable type for v: type[X] is narrower than every plain class a class object is an
     instance of (object); among type[...] the closer base wins"""
+    if t in DEP:
+        return 200          # a value-dependent type is narrower than its bound and the bound's subclasses
     if t.startswith("type["):
         return 100 + len(v.__mro__) - v.__mro__.index(PY[t[5:-1]])
     return len(type(v).__mro__) - type(v).__mro__.index(PY[t])
@@ -361,7 +367,8 @@ def check_case(spec, res):
     classes = spec["classes"]
     model = Model(classes)
     ns = {"VF_": vf, "OvldBase": OvldBase, "OvldMC": OvldMC, "extend_super": extend_super,
-          "recurse": ovld.recurse, "call_next": ovld.call_next}
+          "recurse": ovld.recurse, "call_next": ovld.call_next,
+          "EVEN": ovld.Dependent[int, DEP["EVEN"]], "GE3": ovld.Dependent[int, DEP["GE3"]]}
     files = []
     res.count("hierarchies")
     res.sample(spec)
